@@ -417,6 +417,7 @@ func run(r *evid.Run) {
 	r.Assume("universe is prefix-free as a whole (the disk bucket documents that deletes may leave orphan directories, so a path that is a strict prefix of another is outside the quantifier)")
 	// cheap, high-yield parts first: every model state through every derived view, then short sequences
 	derived(r, nil, scratch)
+	pathVariety(r, scratch)
 	sequences(r, scratch)
 	ops := Alphabet(!r.Quick())
 	if r.Quick() {
@@ -743,4 +744,179 @@ func bigContent(n int) string {
 		fmt.Fprintf(&b, "%07d|", i)
 	}
 	return b.String()[:n]
+}
+
+// pathVariety: the map behaviour must not depend on what a valid relative path looks like. Every subset of
+// size <= 2 of a list of unusual but valid names (spaces, tabs, non-ASCII, long components, long paths, dots,
+// case) x contents is put into every writable implementation and taken through every transfer route
+// (tar, zip, copy to the other kind and back); get/stat/walk must return exactly what was put.
+func pathVariety(r *evid.Run, scratch string) {
+	ctx := context.Background()
+	long := strings.Repeat("n", 120)
+	names := []string{
+		"ü/ö b.proto", "a b/c d.txt", "tab\tname.proto", long + "/x.proto", long + "/" + long + "/" + long + "/deep.proto",
+		"日本/語.proto", "dot.dir/.hidden", "UPPER/lower", "upper/LOWER", "a..b/c...d", "-dash/--x", "percent%41/x",
+	}
+	cont := []string{"", "1", bigContent(70 * 1024)}
+	type set map[string]string
+	var sets []set
+	for i, n := range names {
+		sets = append(sets, set{n: cont[i%3]})
+		for j := i + 1; j < len(names); j++ {
+			sets = append(sets, set{n: cont[(i+j)%3], names[j]: cont[(i+j+1)%3]})
+		}
+	}
+	routes := []string{"direct-mem", "direct-os", "tar", "zip", "mem->os", "os->mem", "tar-from-os", "zip-from-os", "map(mem,p)", "map(os,p)"}
+	type item struct {
+		s     set
+		route string
+	}
+	var items []item
+	for _, s := range sets {
+		for _, rt := range routes {
+			items = append(items, item{s, rt})
+		}
+	}
+	r.Set("path_variety_names", len(names))
+	r.Set("path_variety_cases", len(items))
+	r.ParallelFor(len(items), 0, func(i int) {
+		it := items[i]
+		r.Eval(1)
+		r.TracesValidated.Add(1)
+		var keys []string
+		for k := range it.s {
+			keys = append(keys, k)
+		}
+		sort.Strings(keys)
+		c := trace{"path-variety/" + it.route, keys, ""}
+		fail := func(kind, what string) {
+			r.Violate("path-variety/"+kind+"/"+it.route, fmt.Sprintf("%s with paths %q: %s", it.route, keys, what), c)
+		}
+		put := func(wb storage.WriteBucket) bool {
+			for _, k := range keys {
+				if err := storage.PutPath(ctx, wb, k, []byte(it.s[k])); err != nil {
+					fail("put-error", fmt.Sprintf("put %q failed: %v", k, err))
+					return false
+				}
+			}
+			return true
+		}
+		var result storage.ReadBucket
+		var cleanups []func()
+		defer func() {
+			for _, f := range cleanups {
+				f()
+			}
+		}()
+		newOS := func() storage.ReadWriteBucket {
+			b, c := osBucket(scratch, false)
+			cleanups = append(cleanups, c)
+			return b
+		}
+		var err error
+		switch it.route {
+		case "direct-mem":
+			b := storagemem.NewReadWriteBucket()
+			if !put(b) {
+				return
+			}
+			result = b
+		case "direct-os":
+			b := newOS()
+			if !put(b) {
+				return
+			}
+			result = b
+		case "map(mem,p)", "map(os,p)":
+			var base storage.ReadWriteBucket = storagemem.NewReadWriteBucket()
+			if it.route == "map(os,p)" {
+				base = newOS()
+			}
+			m := storage.MapReadWriteBucket(base, storage.MapOnPrefix("p/q"))
+			if !put(m) {
+				return
+			}
+			result = m
+		case "tar", "zip", "tar-from-os", "zip-from-os":
+			var src storage.ReadWriteBucket = storagemem.NewReadWriteBucket()
+			if strings.HasSuffix(it.route, "-from-os") {
+				src = newOS()
+			}
+			if !put(src) {
+				return
+			}
+			var buf bytes.Buffer
+			out := storagemem.NewReadWriteBucket()
+			if strings.HasPrefix(it.route, "tar") {
+				if err = storagearchive.Tar(ctx, src, &buf); err == nil {
+					err = storagearchive.Untar(ctx, &buf, out)
+				}
+			} else {
+				if err = storagearchive.Zip(ctx, src, &buf, true); err == nil {
+					err = storagearchive.Unzip(ctx, bytes.NewReader(buf.Bytes()), int64(buf.Len()), out)
+				}
+			}
+			if err != nil {
+				fail("round-trip-error", err.Error())
+				return
+			}
+			result = out
+		case "mem->os":
+			src := storagemem.NewReadWriteBucket()
+			if !put(src) {
+				return
+			}
+			dst := newOS()
+			if _, err = storage.Copy(ctx, src, dst); err != nil {
+				fail("copy-error", err.Error())
+				return
+			}
+			result = dst
+		case "os->mem":
+			src := newOS()
+			if !put(src) {
+				return
+			}
+			if result, err = storagemem.CopyReadBucket(ctx, src); err != nil {
+				fail("copy-error", err.Error())
+				return
+			}
+		}
+		got, err := wrapSnapshot(ctx, result)
+		if err != nil {
+			fail("walk-error", err.Error())
+			return
+		}
+		for _, k := range keys {
+			g, ok := got[k]
+			if !ok {
+				fail("lost", fmt.Sprintf("object %q is missing (bucket lists %d objects)", k, len(got)))
+				return
+			}
+			if g != it.s[k] {
+				fail("content", fmt.Sprintf("object %q has %d bytes, %d were put", k, len(g), len(it.s[k])))
+				return
+			}
+			if _, err := result.Stat(ctx, k); err != nil {
+				fail("stat", fmt.Sprintf("stat %q: %v", k, err))
+				return
+			}
+		}
+		if len(got) != len(keys) {
+			fail("extra", fmt.Sprintf("bucket lists %d objects, %d were put", len(got), len(keys)))
+		}
+	})
+}
+
+func wrapSnapshot(ctx context.Context, b storage.ReadBucket) (map[string]string, error) {
+	out := map[string]string{}
+	err := b.Walk(ctx, "", func(info storage.ObjectInfo) error {
+		data, err := storage.ReadPath(ctx, b, info.Path())
+		if err != nil {
+			return err
+		}
+		out[info.Path()] = string(data)
+		return nil
+	})
+	return out, err
 }
